@@ -58,3 +58,12 @@ package dns
 //@   loop 1 invariant t1:  ttlStart != 0 ==> utab(callres("String"), ttlStart) && (forall k in 1..ttlStart :: !utab(callres("String"), k)) && ttlStart < i
 //@   loop 1 invariant t2:  ttlStart != 0 && ttlEnd == 0 ==> (forall k in ttlStart+1..i :: !utab(callres("String"), k))
 //@   loop 1 invariant t2d: ttlEnd != 0 ==> ttlStart != 0 && ttlStart < ttlEnd && utab(callres("String"), ttlEnd) && (forall k in ttlStart+1..ttlEnd :: !utab(callres("String"), k)) && i == ttlEnd + 1
+
+// Dedup works in place: the result is a prefix view of the caller's slice (same array and start, not
+// longer), every index stays in range, and a kept representative's TTL is only ever lowered
+//@ func Dedup [C20]
+//@   opt no-safety
+//@   ensures inplace: ref(ret0) == ref(rrs) && sliceoff(ret0) == sliceoff(rrs) && len(ret0) <= len(rrs)
+//@   loop 1 invariant len(keys) == rangeindex + 1 && rangeindex < len(rrs)
+//@   loop 2 invariant 0 <= j && j <= rangeindex + 1 && rangeindex < len(rrs) && len(keys) == len(rrs)
+//@   assert at "mrh.Ttl = rh.Ttl" lower: rh.Ttl < mrh.Ttl
